@@ -75,7 +75,8 @@ JsTok ==
      e        |-> <<101>>,   \* 'e'
      tplA     |-> <<96, 120, 36, 123>>,   \* '`x${'
      tplM     |-> <<125, 121, 36, 123>>,   \* '}y${'
-     tplZ     |-> <<125, 122, 96>>]   \* '}z`'
+     tplZ     |-> <<125, 122, 96>>,   \* '}z`'
+     of       |-> <<111, 102>>]   \* 'of'
 JsonTok ==
     [lbr      |-> <<91>>,   \* '['
      rbr      |-> <<93>>,   \* ']'
@@ -117,7 +118,14 @@ JsStmts == <<
     <<"a", "eq", "b", "q", "c", "colon", "d">>,                                 \* a=b?c:d
     <<"async", "sp", "function", "sp", "g", "lp", "rp", "lb", "await", "sp", "x", "rb">>,  \* async function g(){await x}
     <<"try", "lb", "rb", "catch", "lp", "e", "rp", "lb", "rb">>,                \* try{}catch(e){}
-    <<"a", "eq", "tplA", "b", "tplM", "c", "tplZ">>                             \* a=`x${b}y${c}z`
+    <<"a", "eq", "tplA", "b", "tplM", "c", "tplZ">>,                            \* a=`x${b}y${c}z`
+    \* destructuring binding patterns: in declarations, parameters, catch clauses, loop heads, nested
+    <<"var", "sp", "lbr", "a", "comma", "b", "rbr", "eq", "c", "semi">>,                               \* var [a,b]=c;
+    <<"var", "sp", "lb", "a", "comma", "b", "colon", "c", "rb", "eq", "d">>,                           \* var {a,b:c}=d
+    <<"function", "sp", "f", "lp", "lbr", "a", "rbr", "comma", "lb", "b", "rb", "rp", "lb", "rb">>,    \* function f([a],{b}){}
+    <<"try", "lb", "rb", "catch", "lp", "lb", "e", "rb", "rp", "lb", "rb">>,                           \* try{}catch({e}){}
+    <<"for", "lp", "var", "sp", "lbr", "a", "rbr", "sp", "of", "sp", "b", "rp", "lb", "rb">>,          \* for(var [a] of b){}
+    <<"var", "sp", "lbr", "lbr", "a", "rbr", "comma", "lb", "b", "rb", "rbr", "eq", "c">>              \* var [[a],{b}]=c
 >>
 \* statements that every statement is combined with (before and after it) in two-statement documents
 JsTails == 1..3
